@@ -259,7 +259,7 @@ def build(spec):
     # offsets are rendered fixed width, so one layout pass is exact; a second
     # pass only asserts that
     seg = {}
-    for _pass in range(2):
+    for _pass in range(12):
         t, true_fields, pairs = mk_text(offs)
         blobs['TEXT'] = t
         pos = 58
@@ -292,7 +292,8 @@ def build(spec):
             break
         offs = offs2
     t, true_fields, pairs = mk_text(offs)
-    assert len(t) == seg['TEXT'][1] - seg['TEXT'][0] + 1
+    if len(t) != seg['TEXT'][1] - seg['TEXT'][0] + 1:
+        raise LayoutError('offset layout did not converge')
     hd = (db, de_decl) if hdr_data else (0, 0)
     hdr_an = spec.get('header_analysis', True) or not v3
     ha = seg.get('ANALYSIS', (0, 0)) if hdr_an else (0, 0)
@@ -348,6 +349,10 @@ def build(spec):
 # ---------------------------------------------------------------------------
 # reference loader
 # ---------------------------------------------------------------------------
+
+class LayoutError(Exception):
+    """writer could not find a self-consistent layout (delimiter inside offset digits)"""
+
 
 class RefReject(Exception):
     """The bytes are not a consistent, supported FCS file."""
